@@ -168,4 +168,25 @@ theorem continual_wrapper_old_reads_foreign_flag :
       h.continual i ≠ h.iscontinual i :=
   ⟨[.new 0, .new 1, .load 1 0, .step 1 ⟨9, 9⟩ ⟨false, false, true⟩], 1, by decide⟩
 
+/-! ### closed forms of the trailing run for the two extreme observation streams -/
+
+theorem trail_all_nodec (obs : Nat → Obs) (h : ∀ i, (obs i).nodec = true) (n : Nat) : trail obs n = n := by
+  induction n with
+  | zero => rfl
+  | succ n ih => simp [trail, h n, ih]
+
+/-- decrease during the first `k` steps, no decrease from step `k` on: the trailing run after `n` steps is `n - k` -/
+theorem trail_plateau_after (obs : Nat → Obs) (k : Nat) (h : ∀ i, (obs i).nodec = decide (k ≤ i)) (n : Nat) :
+    trail obs n = n - k := by
+  induction n with
+  | zero => simp [trail]
+  | succ n ih =>
+    unfold trail
+    by_cases hk : k ≤ n
+    · simp [h n, hk, ih]; omega
+    · simp [h n, hk]; omega
+
+theorem trail_zero_of_last (obs : Nat → Obs) (i : Nat) (h : (obs i).nodec = false) : trail obs (i+1) = 0 := by
+  simp [trail, h]
+
 end PP.Stop
